@@ -582,6 +582,7 @@ bool TMCG_PublicKey::verify
 		unsigned char *r = new unsigned char[TMCG_PRAB_K0];
 		unsigned char *gamma = new unsigned char[gsize];
 		unsigned char *yy = new unsigned char[mnsize+1024];
+		memset(yy, 0, mnsize+1024); // mpz_export writes nothing for zero
 		size_t cnt = 1;
 		mpz_export(yy, &cnt, -1, mnsize, 1, 0, foo);
 		memcpy(w, yy, mdsize);
